@@ -27,7 +27,7 @@ class DelayFile:
     """
     def __init__(self, name, cells):
         self.name = name
-        self._interconnects = cells.get(None, None)
+        self._interconnects = cells.get(None, [])  # no design-level block: no interconnect delays
         self.cells = dict((n, l) for n, l in cells.items() if n)
 
     def __repr__(self):
